@@ -200,6 +200,15 @@ func buildInlinedView(p *Prog) (map[string][]byte, *inlineStats) {
 			in.imports = map[string]string{}
 			in.changed = false
 			nf := in.cloneNode(f).(*ast.File)
+			// File.Imports has to alias the specs of the import declarations (astutil relies on it); the clone copied them twice
+			nf.Imports = nil
+			for _, d := range nf.Decls {
+				if gd, ok := d.(*ast.GenDecl); ok && gd.Tok == token.IMPORT {
+					for _, sp := range gd.Specs {
+						nf.Imports = append(nf.Imports, sp.(*ast.ImportSpec))
+					}
+				}
+			}
 			for _, d := range nf.Decls {
 				fd, ok := d.(*ast.FuncDecl)
 				if !ok || fd.Body == nil {
